@@ -86,9 +86,11 @@ Section EDF.
 
   Definition edf_rhs (A AF : N) : N := edf_blocking A + (tua (A + 1) - rem) + edf_hep A AF.
 
+  (* tua_demand = self_interference.saturating_sub(rem_cost): the search space also contains offsets that stem
+     from the other tasks' steps, at which the task under analysis may have no arrival (rbf_tua (A + 1) = 0);
+     the subtraction is truncated (as in Prosa's aRTA), it is the N.sub of [edf_rhs] *)
   Definition edf_rta (A : N) : result :=
-    if tua (A + 1) <? rem then RPanic
-    else rbind (ded_search dbg limit (edf_rhs A)) (fun AF => ROk ((AF - A) + rem)).
+    rbind (ded_search dbg limit (edf_rhs A)) (fun AF => ROk ((AF - A) + rem)).
 
   (* offsets contributed by another task: steps shifted by D_o - D (saturating), below L *)
   Definition edf_other_offsets (L : N) (o : edf_other) : option (list N) :=
